@@ -159,6 +159,7 @@ Constructed == <<
   D("Q-om", TSeq(<<O(TBool), C(I07)>>, FALSE, <<>>)),
   D("Q-ooo", TSeq(<<O(Int0), O(TBool), O(IA5)>>, FALSE, <<>>)),
   D("Q-def", TSeq(<<Df(Int0, I(3)), C(TBool)>>, FALSE, <<>>)),
+  D("Q-defneg", TSeq(<<Df(Int0, I(-5)), C(TBool), Df(TInt(R(-10, 10)), I(-10))>>, FALSE, <<>>)),
   \* DEFAULT on components whose type is a reference to a defined type
   D("Q-defref", TSeq(<<C(I07), Df(TRef("I-unc"), I(50)), Df(TRef("E-abc"), 1), Df(TRef("S-ia5"), <<65, 66>>), Df(TRef("Z-bool"), TRUE)>>, FALSE, <<>>)),
   D("Q-def2", TSeq(<<Df(I07, I(0)), Df(TBool, TRUE), O(TNull)>>, FALSE, <<>>)),
@@ -237,6 +238,7 @@ CommonDefs == <<
   D("Q-mo", TSeq(<<C(I07), O(TBool)>>, FALSE, <<>>)),
   D("Q-ooo", TSeq(<<O(Int0), O(TBool), O(IA5)>>, FALSE, <<>>)),
   D("Q-def", TSeq(<<Df(Int0, I(3)), C(TBool)>>, FALSE, <<>>)),
+  D("Q-defneg", TSeq(<<Df(Int0, I(-5)), C(TBool), Df(TInt(R(-10, 10)), I(-10))>>, FALSE, <<>>)),
   \* DEFAULT on components whose type is a reference to a defined type
   D("R-int", Int0), D("R-str", IA5), D("R-bool", TBool),
   D("Q-defref", TSeq(<<C(I07), Df(TRef("R-int"), I(50)), Df(TRef("E-abc"), 1), Df(TRef("R-str"), <<65, 66>>), Df(TRef("R-bool"), TRUE)>>, FALSE, <<>>)),
